@@ -15,6 +15,7 @@ import (
 	"go/token"
 	"go/types"
 	"os"
+	"sort"
 	"strconv"
 	"strings"
 
@@ -529,6 +530,62 @@ func seqDecide(c *Ctx, dr, dra *ssa.Function, kImp int64) (decided bool, bad str
 		}
 		return nil
 	}
+	// a flag kept in a field of a local object, set to true inside a loop and read after it: "some
+	// element of the ranged list made it set"
+	D = e.resolveFlags(D, 0)
+	// a search whose predicate mentions another, closed search (a path condition the predicate
+	// was evaluated under): split the outer search on it
+	for round := 0; round < 4; round++ {
+		changed := false
+		for _, at := range u.AtomsOf(D) {
+			if at.Op != "exists" {
+				continue
+			}
+			pr := u.ToBool(at.Args[1])
+			for _, in := range u.AtomsOf(pr) {
+				if in.Op != "exists" {
+					continue
+				}
+				closed := true
+				for _, x := range u.Collect(in, func(x *E) bool { return x.Op == "bvar" }) {
+					if u.Mentions(u.Bool(pr), func(y *E) bool { return y == x }) && !u.Mentions(in.Args[1], func(y *E) bool { return y == x }) {
+						continue
+					}
+				}
+				// closed with respect to the outer search: none of the outer predicate's own bound
+				// variables (those it uses outside the inner search) occurs in the inner one
+				outer := map[*E]bool{}
+				for _, a2 := range u.AtomsOf(pr) {
+					if a2.Op == "exists" {
+						continue
+					}
+					for _, x := range u.Collect(a2, func(x *E) bool { return x.Op == "bvar" && x != e.nu }) {
+						outer[x] = true
+					}
+				}
+				for x := range outer {
+					if u.Mentions(in, func(y *E) bool { return y == x }) {
+						closed = false
+					}
+				}
+				if !closed {
+					continue
+				}
+				iv := u.atomIx[in.key]
+				hi := u.Exists(at.Args[0], u.bdd.Cofactor(pr, iv, true))
+				lo := u.Exists(at.Args[0], u.bdd.Cofactor(pr, iv, false))
+				D = u.bdd.Compose(D, u.atomIx[at.key], u.bdd.ITE(u.Atom(in), hi, lo))
+				changed = true
+				break
+			}
+			if changed {
+				break
+			}
+		}
+		if !changed {
+			break
+		}
+	}
 	if at := carried(D); at != nil {
 		return false, "", "the result depends on a value carried around a loop: " + clip(u.Show(at), 120)
 	}
@@ -549,50 +606,74 @@ func seqDecide(c *Ctx, dr, dra *ssa.Function, kImp int64) (decided bool, bad str
 			draCall = at
 		}
 	}
-	// exists atoms, and the axioms that come with them
-	var exs []*E
-	ax := True
-	care := u.bdd.Not(noRW(e.nu))
-	if draCall != nil {
-		care = u.bdd.And(care, u.bdd.Not(u.ToBool(u.Eq(u.Len(draCall), u.Int(0)))))
+	// The searches of D: each is "some rule x of DNSRewritesAll() with member_k(x) has
+	// pred_k(x, ν)".  Emptiness tests of a list of exceptions are searches too ("no member").
+	X := e.exc
+	type search struct {
+		at  *E
+		phi Ref // over X and ν
 	}
-	for _, at := range u.AtomsOf(D) {
-		if at.Op == "exists" {
-			exs = append(exs, at)
-			ax = u.bdd.And(ax, u.bdd.Imp(u.Atom(at), u.bdd.Not(u.ToBool(u.Eq(u.Len(at.Args[0]), u.Int(0))))))
+	var searches []search
+	resolve := func(coll *E) (Ref, string) {
+		if cm, isCarried, okC := e.carriedListMember(coll, X); isCarried {
+			if !okC {
+				return False, "the list searched for exceptions is built in a way outside the reading: " + e.why
+			}
+			return cm, ""
 		}
+		if coll == draCall {
+			return True, ""
+		}
+		av, ok := e.colls[coll.key]
+		if !ok {
+			// a search the evaluator canonicalised: find the value with this expression
+			for _, act := range append([]*Summary{s}, g.Subs...) {
+				for v, ex := range act.Env {
+					if ex == coll {
+						if _, isSl := v.Type().Underlying().(*types.Slice); isSl {
+							av, ok = AV{act, v}, true
+						}
+					}
+				}
+			}
+		}
+		if !ok {
+			return False, "the list searched for exceptions is not resolved: " + clip(u.Show(coll), 80)
+		}
+		if st, isSl := av.V.Type().Underlying().(*types.Slice); !isSl || !types.Identical(st.Elem(), nrT) {
+			return False, "exceptions are kept in a list of another element type"
+		}
+		e.why = ""
+		cs, ok := e.seq(av)
+		if !ok || cs.base != "ALL" || cs.appElem != nil {
+			return False, "the list of exceptions is not a view of DNSRewritesAll(): " + e.why
+		}
+		for _, a2 := range u.AtomsOf(cs.drop) {
+			if a2.Op == "exists" {
+				return False, "the list of exceptions itself depends on a search"
+			}
+		}
+		return u.bdd.And(cs.def, u.bdd.Not(u.SubstBool(cs.drop, map[string]*E{e.nu.key: X}))), ""
 	}
-	D0 := D
-	var anyEx Ref = False
-	for _, at := range exs {
-		D0 = u.bdd.Cofactor(D0, u.atomIx[at.key], false)
-		anyEx = u.bdd.Or(anyEx, u.Atom(at))
-	}
-	axc := u.bdd.And(ax, care)
-	if u.bdd.And(axc, u.bdd.Xor(D, u.bdd.Or(D0, anyEx))) != False {
-		return false, "", "the result does not drop an element exactly when it is dropped without exceptions or some exception makes it dropped: " + clip(u.ShowBool(D), 200)
-	}
-	// without exceptions: exactly the exception rules are dropped.  What a fast path tests about
-	// the list of exceptions plays no part once every exception is taken not to fire.
-	for _, at := range u.AtomsOf(D0) {
-		if at.Op == "eq" && at.Args[0].Op == "len" && isIntConst(at.Args[1], 0) && !u.Mentions(at, func(x *E) bool { return x == e.nu }) {
-			D0a, D0b := u.bdd.Cofactor(D0, u.atomIx[at.key], true), u.bdd.Cofactor(D0, u.atomIx[at.key], false)
-			if u.bdd.And(care, D0a) == u.bdd.And(care, W(e.nu)) && u.bdd.And(care, D0b) == u.bdd.And(care, W(e.nu)) {
-				D0 = D0b
+	// emptiness tests first: len(list) == 0  <=>  no member
+	for _, at := range u.AtomsOf(D) {
+		if at.Op == "eq" && at.Args[0].Op == "len" && isIntConst(at.Args[1], 0) && at.Args[0].Args[0].Typ != nil {
+			if st, isSl := at.Args[0].Args[0].Typ.Underlying().(*types.Slice); isSl && types.Identical(st.Elem(), nrT) {
+				coll := at.Args[0].Args[0]
+				if coll == draCall {
+					D = u.bdd.Cofactor(D, u.atomIx[at.key], false) // the element ν is in it
+					continue
+				}
+				if m, why := resolve(coll); why == "" {
+					D = u.bdd.Compose(D, u.atomIx[at.key], u.bdd.Not(u.Exists(draCallOr(draCall, coll), u.SubstBool(m, map[string]*E{X.key: u.BVar(69, nrT)}))))
+				}
 			}
 		}
 	}
-	if u.bdd.And(care, D0) != u.bdd.And(care, W(e.nu)) {
-		extra := u.bdd.And(care, u.bdd.And(D0, u.bdd.Not(W(e.nu))))
-		if extra != False {
-			return true, "a rewrite that is not an exception rule is dropped although no exception applies to it: dropped when " + clip(u.ShowBool(u.bdd.Restrict(D0, u.bdd.Not(W(e.nu)))), 160), ""
+	for _, at := range u.AtomsOf(D) {
+		if at.Op != "exists" {
+			continue
 		}
-		return true, "an exception rule (Whitelist) can be part of the result: kept when " + clip(u.ShowBool(u.bdd.And(care, u.bdd.And(W(e.nu), u.bdd.Not(D0)))), 160), ""
-	}
-	// each exists: over which rules, with which predicate
-	X := e.exc
-	var B Ref = False
-	for _, at := range exs {
 		coll := at.Args[0]
 		pred := u.ToBool(at.Args[1])
 		var bv *E
@@ -607,38 +688,9 @@ func seqDecide(c *Ctx, dr, dra *ssa.Function, kImp int64) (decided bool, bad str
 				bv = x
 			}
 		}
-		member := True
-		if coll != draCall {
-			av, ok := e.colls[coll.key]
-			if !ok {
-				// a search the evaluator canonicalised: find the value with this expression
-				for _, act := range append([]*Summary{s}, g.Subs...) {
-					for v, ex := range act.Env {
-						if ex == coll {
-							if _, isSl := v.Type().Underlying().(*types.Slice); isSl {
-								av, ok = AV{act, v}, true
-							}
-						}
-					}
-				}
-			}
-			if !ok {
-				return false, "", "the list searched for exceptions is not resolved: " + clip(u.Show(coll), 80)
-			}
-			if st, isSl := av.V.Type().Underlying().(*types.Slice); !isSl || !types.Identical(st.Elem(), nrT) {
-				return false, "", "exceptions are kept in a list of another element type"
-			}
-			e.why = ""
-			cs, ok := e.seq(av)
-			if !ok || cs.base != "ALL" || cs.appElem != nil {
-				return false, "", "the list of exceptions is not a view of DNSRewritesAll(): " + e.why
-			}
-			for _, a2 := range u.AtomsOf(cs.drop) {
-				if a2.Op == "exists" {
-					return false, "", "the list of exceptions itself depends on a search"
-				}
-			}
-			member = u.bdd.And(cs.def, u.bdd.Not(u.SubstBool(cs.drop, map[string]*E{e.nu.key: X})))
+		member, why := resolve(coll)
+		if why != "" {
+			return false, "", why
 		}
 		if bv != nil {
 			pred = u.SubstBool(pred, map[string]*E{bv.key: X})
@@ -646,37 +698,47 @@ func seqDecide(c *Ctx, dr, dra *ssa.Function, kImp int64) (decided bool, bad str
 		if dbg {
 			fmt.Println("SEQ ex coll", clip(u.Show(coll), 100), "member", clip(u.ShowBool(member), 300), "pred", clip(u.ShowBool(pred), 300))
 		}
-		B = u.bdd.Or(B, u.bdd.And(member, pred))
+		searches = append(searches, search{at, u.bdd.And(member, pred)})
 	}
-	if dbg {
-		fmt.Println("SEQ B =", u.ShowBool(B))
+	if len(searches) > 10 {
+		return false, "", "too many searches"
 	}
-	// B(X, ν) against the statement
-	careB := u.bdd.And(u.bdd.Not(noRW(X)), u.bdd.And(u.bdd.Not(noRW(e.nu)), u.bdd.Not(W(e.nu))))
+	// cares: the receiver exists, both rules have a rewrite, the list is not empty (ν is in it)
+	careAll := u.bdd.And(recvOK, u.bdd.And(u.bdd.Not(noRW(X)), u.bdd.Not(noRW(e.nu))))
 	if draCall != nil {
-		careB = u.bdd.And(careB, u.bdd.Not(u.ToBool(u.Eq(u.Len(draCall), u.Int(0)))))
+		careAll = u.bdd.And(careAll, u.bdd.Not(u.ToBool(u.Eq(u.Len(draCall), u.Int(0)))))
 	}
-	B = u.bdd.Restrict(B, u.bdd.And(careB, recvOK))
-	for _, at := range u.AtomsOf(B) {
-		if at.Op != "exists" && u.Mentions(at, func(x *E) bool { return x.Op == "loopphi" && x.Typ != nil && isIntT(x.Typ) }) &&
-			!u.Mentions(at, func(x *E) bool { return (x.Op == "loopphi" || x.Op == "loopval") && (x.Typ == nil || !isIntT(x.Typ)) }) {
-			B = u.bdd.Exists(B, u.atomIx[at.key])
+	Dc := u.bdd.Restrict(D, careAll)
+	quant := func(f Ref) Ref {
+		for _, at := range u.AtomsOf(f) {
+			if at.Op != "exists" && u.Mentions(at, func(x *E) bool { return x.Op == "loopphi" && x.Typ != nil && isIntT(x.Typ) }) &&
+				!u.Mentions(at, func(x *E) bool { return (x.Op == "loopphi" || x.Op == "loopval") && (x.Typ == nil || !isIntT(x.Typ)) }) {
+				f = u.bdd.Exists(f, u.atomIx[at.key])
+			}
+		}
+		return f
+	}
+	for i := range searches {
+		searches[i].phi = quant(u.bdd.Restrict(searches[i].phi, careAll))
+		if at := carried(searches[i].phi); at != nil {
+			return false, "", "an exception's effect depends on a value carried around a loop: " + clip(u.Show(at), 120)
+		}
+		if dbg {
+			fmt.Println("SEQ phi", i, "=", clip(u.ShowBool(searches[i].phi), 1500))
 		}
 	}
-	if dbg {
-		fmt.Println("SEQ B' =", u.ShowBool(B))
-	}
-	if at := carried(B); at != nil {
-		return false, "", "an exception's effect depends on a value carried around a loop: " + clip(u.Show(at), 120)
-	}
+	// roles of the atoms
 	dfield := func(p *E, f string) string { return u.Field(u.Field(p, "DNSRewrite", nil), f, nil).key }
 	roles := map[string]*E{}
-	names := []string{"excW", "excImp", "nrImp", "empty", "excCnameEmpty", "sameCname", "sameRcode", "excSuccess", "nrSuccess", "sameType", "sameValue"}
-	for _, at := range u.AtomsOf(B) {
+	xNames := []string{"excW", "excImp", "empty", "excCnameEmpty", "sameCname", "sameRcode", "excSuccess", "sameType", "sameValue"}
+	nuNames := []string{"nuW", "nrImp", "nrSuccess"}
+	classify := func(at *E) bool {
 		c.Atoms[at.key] = true
 		switch {
 		case u.Atom(at) == W(X):
 			roles["excW"] = at
+		case u.Atom(at) == W(e.nu):
+			roles["nuW"] = at
 		case u.Atom(at) == impOf(X):
 			roles["excImp"] = at
 		case u.Atom(at) == impOf(e.nu):
@@ -698,54 +760,302 @@ func seqDecide(c *Ctx, dr, dra *ssa.Function, kImp int64) (decided bool, bad str
 		case (at.Op == "call" || at.Op == "eq") && len(at.Args) >= 2 && pairIs(at, dfield(X, "Value"), dfield(e.nu, "Value")):
 			roles["sameValue"] = at
 		default:
-			return false, "", "a condition outside the documented criteria: " + clip(u.Show(at), 140)
+			return false
+		}
+		return true
+	}
+	isSearch := map[*E]int{}
+	for i, sr := range searches {
+		isSearch[sr.at] = i
+		for _, at := range u.AtomsOf(sr.phi) {
+			if !classify(at) {
+				return false, "", "a condition outside the documented criteria: " + clip(u.Show(at), 140)
+			}
 		}
 	}
+	for _, at := range u.AtomsOf(Dc) {
+		if _, ok := isSearch[at]; ok {
+			continue
+		}
+		if !classify(at) || u.Mentions(at, func(x *E) bool { return x == X }) {
+			return false, "", "the result depends on a condition outside the documented criteria: " + clip(u.Show(at), 140)
+		}
+	}
+	// Model check.  For a fixed rewrite ν (a valuation of its own criteria) a rule x of the list is
+	// one of finitely many kinds (valuations of the criteria that involve x); a search is true iff
+	// a kind that satisfies it is present.  Two lists with the same truth values of all searches
+	// and of the statement's own search are indistinguishable, so it is enough to try every set of
+	// the signatures (search_1..search_m, statement) that some kind realises.
 	n := 0
-	for m := 0; m < 1<<len(names); m++ {
-		val := map[string]bool{}
-		asg := map[string]bool{}
-		for i, nm := range names {
-			val[nm] = m&(1<<i) != 0
-			if roles[nm] != nil {
-				asg[roles[nm].key] = val[nm]
+	for nv := 0; nv < 1<<len(nuNames); nv++ {
+		nuVal := map[string]bool{}
+		for i, nm := range nuNames {
+			nuVal[nm] = nv&(1<<i) != 0
+		}
+		sigs := map[uint32]map[string]bool{}
+		for m := 0; m < 1<<len(xNames); m++ {
+			val := map[string]bool{}
+			for k, v := range nuVal {
+				val[k] = v
 			}
-		}
-		// what the criteria say about each other
-		if val["empty"] && !(val["excCnameEmpty"] && val["excSuccess"]) {
-			continue
-		}
-		if val["excSuccess"] && val["nrSuccess"] != val["sameRcode"] {
-			continue
-		}
-		if !val["excSuccess"] && val["nrSuccess"] && val["sameRcode"] {
-			continue
-		}
-		got := u.bdd.Eval(B, func(v int) bool { return asg[u.atoms[v].key] })
-		n++
-		var want bool
-		switch {
-		case !val["excW"]:
-			want = false
-		case val["empty"]:
-			want = val["excImp"] || !val["nrImp"]
-		case !val["excImp"] && val["nrImp"]:
-			want = false
-		case !val["excCnameEmpty"]:
-			want = val["sameCname"]
-		default:
-			want = val["sameRcode"] && (!val["excSuccess"] || (val["sameType"] && val["sameValue"]))
-		}
-		if got != want {
-			var on []string
-			for _, nm := range names {
-				if val[nm] {
-					on = append(on, nm)
+			for i, nm := range xNames {
+				val[nm] = m&(1<<i) != 0
+			}
+			// what the criteria say about each other
+			if val["empty"] && !(val["excCnameEmpty"] && val["excSuccess"]) {
+				continue
+			}
+			if val["excSuccess"] && val["nrSuccess"] != val["sameRcode"] {
+				continue
+			}
+			if !val["excSuccess"] && val["nrSuccess"] && val["sameRcode"] {
+				continue
+			}
+			asg := map[string]bool{}
+			for nm, at := range roles {
+				asg[at.key] = val[nm]
+			}
+			var sig uint32
+			for i, sr := range searches {
+				if u.bdd.Eval(sr.phi, func(v int) bool { return asg[u.atoms[v].key] }) {
+					sig |= 1 << uint(i)
 				}
 			}
-			return true, fmt.Sprintf("for a rule X of the list and a rewrite with {%s} true and the other criteria false, X makes the rewrite dropped: %v; the statement says %v", strings.Join(on, ", "), got, want), ""
+			var want bool
+			switch {
+			case !val["excW"]:
+				want = false
+			case val["empty"]:
+				want = val["excImp"] || !val["nrImp"]
+			case !val["excImp"] && val["nrImp"]:
+				want = false
+			case !val["excCnameEmpty"]:
+				want = val["sameCname"]
+			default:
+				want = val["sameRcode"] && (!val["excSuccess"] || (val["sameType"] && val["sameValue"]))
+			}
+			if want {
+				sig |= 1 << 31
+			}
+			if _, have := sigs[sig]; !have {
+				sigs[sig] = val
+			}
+		}
+		var sl []uint32
+		for sg := range sigs {
+			sl = append(sl, sg)
+		}
+		sort.Slice(sl, func(i, j int) bool { return sl[i] < sl[j] })
+		if len(sl) > 14 {
+			return false, "", "too many kinds of exception rules to tell apart"
+		}
+		for sub := 0; sub < 1<<len(sl); sub++ {
+			var present uint32
+			for i, sg := range sl {
+				if sub&(1<<i) != 0 {
+					present |= sg
+				}
+			}
+			asg := map[string]bool{}
+			for nm, at := range roles {
+				asg[at.key] = nuVal[nm]
+			}
+			got := u.bdd.Eval(Dc, func(v int) bool {
+				at := u.atoms[v]
+				if i, ok := isSearch[at]; ok {
+					return present&(1<<uint(i)) != 0
+				}
+				return asg[at.key]
+			})
+			want := nuVal["nuW"] || present&(1<<31) != 0
+			n++
+			if got != want {
+				var kinds []string
+				for i, sg := range sl {
+					if sub&(1<<i) == 0 {
+						continue
+					}
+					var on []string
+					for _, nm := range xNames {
+						if sigs[sg][nm] {
+							on = append(on, nm)
+						}
+					}
+					kinds = append(kinds, "{"+strings.Join(on, ", ")+"}")
+				}
+				var nuOn []string
+				for _, nm := range nuNames {
+					if nuVal[nm] {
+						nuOn = append(nuOn, nm)
+					}
+				}
+				what := "is dropped although the statement keeps it"
+				if !got {
+					what = "is kept although the statement drops it"
+				}
+				return true, fmt.Sprintf("a rewrite with {%s} %s, in a list that also holds rules of the kinds %s (criteria named true, the others false)", strings.Join(nuOn, ", "), what, strings.Join(kinds, " and ")), ""
+			}
 		}
 	}
 	c.Paths += n
 	return true, "", ""
+}
+
+func draCallOr(dra, coll *E) *E {
+	if dra != nil {
+		return dra
+	}
+	return coll
+}
+
+// storesTo lists the store effects of the evaluation into the location a carried loop value
+// stands for.
+func (e *seqEval) storesTo(lv *E) []Effect {
+	k := strings.TrimPrefix(lv.Aux, "carried:")
+	if len(k) < 2 {
+		return nil
+	}
+	var out []Effect
+	for _, ef := range e.top.Effects {
+		if ef.Kind == "store" && ef.Addr != nil && ef.Addr.key == k[2:] {
+			out = append(out, ef)
+		}
+	}
+	return out
+}
+
+func isCarriedVal(x *E) bool {
+	return x.Op == "loopval" && strings.HasPrefix(x.Aux, "carried:")
+}
+
+// resolveFlags replaces every boolean carried value in f (also inside searches) by "some
+// iteration stored true".
+func (e *seqEval) resolveFlags(f Ref, depth int) Ref {
+	u := e.u
+	if depth > 3 {
+		return f
+	}
+	for _, at := range u.AtomsOf(f) {
+		switch {
+		case isCarriedVal(at) && isBoolE(at):
+			var flag Ref = False
+			ok := true
+			stores := e.storesTo(at)
+			if len(stores) == 0 {
+				ok = false
+			}
+			for _, ef := range stores {
+				if ef.Val.Op == "bool" && ef.Val.B == False {
+					continue // (re)initialised
+				}
+				if !(ef.Val.Op == "bool" && ef.Val.B == True) || ef.Ins == nil {
+					ok = false
+					break
+				}
+				act := ef.Act
+				if act == nil {
+					act = e.top
+				}
+				if innermostLoop(loopsOf(act.Fn), ef.Ins.Block()) == nil {
+					// set in a helper called from the loop: the loop is around the call
+					l, lact := loopAround(e.top, act, ef.Ins)
+					if l == nil {
+						ok = false
+						break
+					}
+					ro := rangedOver(l)
+					if ro == nil {
+						ok = false
+						break
+					}
+					var elT types.Type = e.nrT
+					if st, isSl := ro.Coll.Type().Underlying().(*types.Slice); isSl {
+						elT = st.Elem()
+					}
+					bv := e.newBV(elT)
+					p, collE, okP := e.closePred(lact, l, ef.Cond, bv)
+					if !okP {
+						ok = false
+						break
+					}
+					e.colls[collE.key] = AV{lact, ro.Coll}
+					flag = u.bdd.Or(flag, u.Exists(collE, p))
+					continue
+				}
+				c2, okE := e.existsIn(act, ef.Ins, ef.Cond)
+				if !okE {
+					ok = false
+					break
+				}
+				flag = u.bdd.Or(flag, c2)
+			}
+			if ok {
+				f = u.bdd.Compose(f, u.atomIx[at.key], flag)
+			}
+		case at.Op == "exists":
+			pr := u.ToBool(at.Args[1])
+			npr := e.resolveFlags(pr, depth+1)
+			if npr != pr {
+				f = u.bdd.Compose(f, u.atomIx[at.key], u.Exists(at.Args[0], npr))
+			}
+		}
+	}
+	return f
+}
+
+// carriedListMember: coll is a list kept in a field of a local object and appended to inside a
+// loop over a view of DNSRewritesAll(); member(x) says which elements of that view it holds.
+func (e *seqEval) carriedListMember(coll *E, X *E) (member Ref, isCarried, ok bool) {
+	u := e.u
+	if !isCarriedVal(coll) {
+		return False, false, false
+	}
+	stores := e.storesTo(coll)
+	if len(stores) == 0 {
+		e.why = "no store into the list found"
+		return False, true, false
+	}
+	member = False
+	for _, ef := range stores {
+		if ef.Val.IsNil() {
+			continue
+		}
+		if ef.Val.Op != "append" || ef.Val.Aux != "elems" || len(ef.Val.Args) != 2 || ef.Ins == nil {
+			e.why = "the list is stored other than by appending one element"
+			return False, true, false
+		}
+		act := ef.Act
+		if act == nil {
+			act = e.top
+		}
+		l, lact := loopAround(e.top, act, ef.Ins)
+		if l == nil {
+			e.why = "an element is appended outside a loop"
+			return False, true, false
+		}
+		ro := rangedOver(l)
+		if ro == nil || ro.Kind != "index" || !ro.Full || !onlyExhaustionExit(l) {
+			e.why = "the collecting loop is not a complete range"
+			return False, true, false
+		}
+		collE := lact.Env[ro.Coll]
+		el := ef.Val.Args[1]
+		if collE == nil || el.Op != "index" || el.Args[0] != collE {
+			e.why = "the appended element is not the element visited"
+			return False, true, false
+		}
+		e.why = ""
+		src, okS := e.seq(AV{lact, ro.Coll})
+		if !okS || src.base != "ALL" || src.appElem != nil {
+			e.why = "the collecting loop does not range over a view of DNSRewritesAll(): " + e.why
+			return False, true, false
+		}
+		p, _, okP := e.closePred(lact, l, ef.Cond, X)
+		if !okP {
+			return False, true, false
+		}
+		inSrc := u.bdd.And(src.def, u.bdd.Not(u.SubstBool(src.drop, map[string]*E{e.nu.key: X})))
+		member = u.bdd.Or(member, u.bdd.And(inSrc, p))
+	}
+	return member, true, true
 }
